@@ -40,6 +40,7 @@ type c08Layout struct {
 	kds        []c08KD
 	advertises bool     // some descriptor advertises a usable-looking encryption key
 	mustFail   bool     // advertised key is unusable: an error reply is the only acceptable outcome
+	errorOK    bool     // advertised key is usable but an implementation may refuse it: error reply or encrypted response
 	dontCare   bool     // statement does not decide
 	decryptors []string // key fixtures allowed to recover the content
 }
@@ -54,6 +55,11 @@ func c08Layouts() []c08Layout {
 		{name: "enc+methods-without-aes128", kds: []c08KD{{use: "encryption", cert: sp, methods: all[1:]}}, advertises: true, decryptors: []string{"sp2048"}},
 		{name: "enc+methods-only-gcm", kds: []c08KD{{use: "encryption", cert: sp, methods: []string{"http://www.w3.org/2009/xmlenc11#aes128-gcm"}}}, advertises: true, decryptors: []string{"sp2048"}},
 		{name: "nouse", kds: []c08KD{{use: "", cert: sp}}, advertises: true, decryptors: []string{"sp2048"}},
+		// a usable RSA certificate whose keyUsage extension does not mention encipherment: the SP advertised it for encryption all the same;
+		// encrypting to it or refusing are both fine, sending the assertion in clear is not
+		{name: "enc-keyusage-signature-only", kds: []c08KD{{use: "encryption", cert: samlgen.Key("sp2048kusig").CertB64}}, advertises: true, errorOK: true, decryptors: []string{"sp2048"}},
+		{name: "enc-keyusage-signature+contentcommitment", kds: []c08KD{{use: "encryption", cert: samlgen.Key("sp2048kusigcc").CertB64}}, advertises: true, errorOK: true, decryptors: []string{"sp2048"}},
+		{name: "nouse-keyusage-keyagreement", kds: []c08KD{{use: "", cert: samlgen.Key("sp2048kuagree").CertB64}}, advertises: true, errorOK: true, decryptors: []string{"sp2048"}},
 		{name: "nouse+chain", kds: []c08KD{{use: "", cert: sp, more: []string{other}}}, advertises: true, decryptors: []string{"sp2048"}},
 		{name: "enc+chain", kds: []c08KD{{use: "encryption", cert: sp, more: []string{other, samlgen.Key("spother2").CertB64}}}, advertises: true, decryptors: []string{"sp2048"}},
 		{name: "nouse+chain-with-empty-first", kds: []c08KD{{use: "", cert: "", more: []string{sp, other}}}, dontCare: true},
@@ -471,7 +477,7 @@ func c08CheckEmitted(t *core.T, l c08Layout, sess *saml.Session, body []byte, dr
 				fail("marker-in-error-reply", "error reply contains user data %q", m)
 			}
 		}
-		if l.advertises && !l.mustFail {
+		if l.advertises && !l.mustFail && !l.errorOK {
 			fail("no-response-although-key-usable", "layout %s advertises a usable encryption certificate but no response was produced: %s", l.name, trunc(body, 120))
 			return nil, false
 		}
@@ -890,6 +896,55 @@ func c08SPSide(c *core.Ctx) {
 	pts := map[string]string{"empty": "", "whitespace": " \n ", "comment-only": "<!-- c -->", "pi-only": "<?xml version=\"1.0\"?>", "text-only": "hello", "two-roots-evil-first": evilXML + string(goodPT),
 		"two-roots-evil-last": string(goodPT) + evilXML, "junk-after-root-x::y": string(goodPT) + "<x::y/>", "leading-colon-element": "<:a/>" + string(goodPT), "unsigned-evil": evilXML,
 		"not-an-assertion": "<saml:Response xmlns:saml=\"urn:oasis:names:tc:SAML:2.0:assertion\"/>", "unclosed": "<saml:Assertion xmlns:saml=\"urn:oasis:names:tc:SAML:2.0:assertion\">", "nul-byte": "\x00", "doctype": "<!DOCTYPE a [<!ENTITY x \"y\">]>" + string(goodPT)}
+	// decrypted content that is not well-formed XML although a tolerant tokenizer would read it, under a signature on the Response
+	// (the IdP's signature covers the ciphertext, so the plaintext itself carries no signature): a validation failure like any other
+	// malformed ciphertext, exactly as the same bytes would be refused in a plaintext Response
+	plain := string(samlgen.Doc(samlgen.DefaultAssertion().Element()))
+	malformed := map[string]string{
+		"well-formed-control":     plain,
+		"undefined-entity":        strings.Replace(plain, "alice@example.com", "alice@example.com&nbsp;", 1),
+		"bare-ampersand":          strings.Replace(plain, "alice@example.com", "alice&bob@example.com", 1),
+		"unquoted-attribute":      strings.Replace(plain, `Version="2.0"`, `Version=2.0`, 1),
+		"attribute-without-value": strings.Replace(plain, `Version="2.0"`, `Version="2.0" checked`, 1),
+		"mismatched-end-tag-case": strings.Replace(plain, "</saml:Issuer>", "</saml:ISSUER>", 1),
+		"unterminated-comment":    strings.Replace(plain, "<saml:Subject>", "<!-- <saml:Subject>", 1),
+		"stray-lt-in-text":        strings.Replace(plain, "alice@example.com", "alice<example.com", 1),
+		"duplicate-attribute":     strings.Replace(plain, `Version="2.0"`, `Version="2.0" Version="2.0"`, 1),
+		"undeclared-prefix":       strings.Replace(plain, "<saml:Subject>", "<undeclared:x/><saml:Subject>", 1),
+		"nul-in-text":             strings.Replace(plain, "alice@example.com", "alice\x00@example.com", 1),
+	}
+	for name, pt := range malformed {
+		name, pt := name, pt
+		c.Case("spfault/malformed-plaintext-under-signed-response/"+name, func(t *core.T) {
+			t.NonTrivial()
+			ea := harness.EncryptAssertionEl([]byte(pt), spKey(), "mal"+name)
+			rel := samlgen.DefaultResponse().Element()
+			rel.AddChild(ea)
+			samlgen.Sign(rel, idp1(), "")
+			doc := samlgen.Doc(rel)
+			if name == "well-formed-control" {
+				a, err := parseXML(sp, doc, ids)
+				t.Impl(1)
+				t.Compared()
+				if err != nil || a == nil {
+					t.Fail("C08/sp/malformed-plaintext/control-rejected", "the well-formed control (signed Response around an encrypted unsigned assertion) is refused: %s", privErr(err))
+				}
+				return
+			}
+			if name == "undeclared-prefix" || name == "duplicate-attribute" {
+				// namespace well-formedness / attribute uniqueness: a verdict either way is tolerated here, only a panic is not
+				_, p := guard(func() error { _, err := parseXML(sp, doc, ids); return err })
+				t.Impl(1)
+				t.Compared()
+				if p != "" {
+					t.Fail("C08/sp/malformed-plaintext/panic@"+p[strings.LastIndex(p, "@")+1:], "panicked: %s", p)
+				}
+				return
+			}
+			mustReject(t, "malformed-plaintext/"+name, doc)
+		})
+	}
+
 	for name, pt := range pts {
 		for _, place := range []string{"inside", "sibling"} {
 			name, pt, place := name, pt, place
